@@ -148,11 +148,37 @@ pub fn quals_extras(q: &Qualifiers) -> Value {
         a == b && b == c && *k == *a && String::from(a) == k.to_string()
     });
     let into_ref: Vec<(String, String)> = (&*q).into_iter().map(|(k, v)| (k.as_str().to_owned(), v.to_owned())).collect();
+    // positional iterator methods against the forward list: nth, nth_back, last, count, skip, step_by, take + rev
+    let own = |x: Option<(&purl::qualifiers::QualifierKey, &str)>| x.map(|(k, v)| (k.as_str().to_owned(), v.to_owned()));
+    let n = fwd.len();
+    let mut positional = q.iter().count() == n && own(q.iter().last()) == fwd.last().cloned();
+    for i in 0..=n + 1 {
+        positional &= own(q.iter().nth(i)) == fwd.get(i).cloned();
+        positional &= own(q.iter().nth_back(i)) == (if i < n { fwd.get(n - 1 - i).cloned() } else { None });
+        positional &= own(q.iter().rev().nth(i)) == (if i < n { fwd.get(n - 1 - i).cloned() } else { None });
+        let skipped: Vec<_> = q.iter().skip(i).map(|x| own(Some(x)).unwrap()).collect();
+        positional &= skipped == fwd.iter().skip(i).cloned().collect::<Vec<_>>();
+        let rskipped: Vec<_> = q.iter().rev().skip(i).map(|x| own(Some(x)).unwrap()).collect();
+        positional &= rskipped == fwd.iter().rev().skip(i).cloned().collect::<Vec<_>>();
+        let taken: Vec<_> = q.iter().take(i).rev().map(|x| own(Some(x)).unwrap()).collect();
+        positional &= taken == fwd.iter().take(i).rev().cloned().collect::<Vec<_>>();
+        let stepped: Vec<_> = q.iter().step_by(i + 1).map(|x| own(Some(x)).unwrap()).collect();
+        positional &= stepped == fwd.iter().step_by(i + 1).cloned().collect::<Vec<_>>();
+        let mut it = q.iter();
+        let _ = it.nth(i);
+        let rest: Vec<_> = it.map(|x| own(Some(x)).unwrap()).collect();
+        positional &= rest == fwd.iter().skip(i + 1).cloned().collect::<Vec<_>>();
+        let mut it = q.iter();
+        let _ = it.nth_back(i);
+        let rest: Vec<_> = it.map(|x| own(Some(x)).unwrap()).collect();
+        positional &= rest == fwd.iter().take(n.saturating_sub(i + 1)).cloned().collect::<Vec<_>>();
+    }
     json!({
         "alternating_same": front == fwd,
         "size_hints_exact": hints_ok,
         "key_views_same": keys_ok,
         "into_iter_same": into_ref == fwd,
+        "positional_same": positional,
         "rev_same": fwd == rev,
         "len_same": q.len() == fwd.len() && q.is_empty() == fwd.is_empty(),
         "get_lower_same": get_lo == want,
